@@ -5,7 +5,7 @@
    not by comparing with the L1 model.  Definitions only; extracted into coq/ocaml/oracle. *)
 From Coq Require Import ZArith List Bool Lia.
 From Gods Require Import Common.Cmp Common.ListAux Spec.MapSpec Model.Ops Model.Machine.
-From Gods Require Import Proofs.RBInv Proofs.AVLInv Proofs.HeapProofs.
+From Gods Require Import Proofs.RBInv Proofs.AVLInv Proofs.HeapProofs Proofs.BTreeInv.
 From Gods Require Model.RBTree Model.AVLTree Model.BTree.
 Import ListNotations.
 Local Open Scope Z_scope.
@@ -81,3 +81,381 @@ Definition avl_shape_ok (cmp : cmpf) (size : Z) (o : obs) : bool :=
 
 Definition heap_raw_ok (cmp : cmpf) (o : obs) : bool :=
   match zs_of o with Some l => heap_okb cmp l | None => false end.
+
+(* ------------------------------------------------------------------------------------------ *)
+(* B-tree shape                                                                                *)
+(* ------------------------------------------------------------------------------------------ *)
+(* C07, B-tree: at most m children / m-1 keys per node, at least ceil(m/2)-1 keys in every non-root
+   node, k children <-> k-1 keys, all leaves at the same depth (btree_okb, equivalent to btree_inv by
+   BTreeInv.btree_okb_spec); keys strictly ascending; entry count = Size(); Height() = number of
+   levels.  The empty tree is exported as () with size 0 and height 0. *)
+Definition bt_shape_ok (m : nat) (cmp : cmpf) (size height : Z) (o : obs) : bool :=
+  match o with
+  | OL [] => (size =? 0) && (height =? 0)
+  | _ =>
+    match bt_of o with
+    | None => false
+    | Some n =>
+      btree_okb m (Some n) && ksortedb cmp (BTree.inorder n) && (Z.of_nat (BTree.count n) =? size)
+      && (Z.of_nat (BTree.height n) =? height)
+    end
+  end.
+
+(* ------------------------------------------------------------------------------------------ *)
+(* The numeric bounds of C07 as exact integer inequalities (no floating point)                 *)
+(* ------------------------------------------------------------------------------------------ *)
+
+(* 2^k <= x for x > 0, decided without building 2^k (k is an untrusted number from a trace) *)
+Definition pow2_le (k x : Z) : bool := k <=? Z.log2 x.
+Lemma pow2_le_spec : forall k x, 0 < x -> (pow2_le k x = true <-> 2 ^ k <= x).
+Proof.
+  intros k x Hx. unfold pow2_le. rewrite Z.leb_le. symmetry. apply Z.log2_le_pow2. exact Hx.
+Qed.
+
+(* red-black: q <= 2*log2(n+1) + 2 over the reals
+   <-> (q-2)/2 <= log2(n+1) <-> 2^((q-2)/2) <= n+1 <-> 2^(q-2) <= (n+1)^2   (q >= 2; trivially true
+   for q < 2 because log2(n+1) >= 0 for n >= 0).  A negative size satisfies nothing. *)
+Definition rb_cost_ok (n q : Z) : bool :=
+  (0 <=? n) && ((q <? 2) || pow2_le (q - 2) ((n + 1) ^ 2)).
+
+(* AVL: q <= 1.45*log2(n+2) + 2 <-> 20*(q-2) <= 29*log2(n+2) <-> 2^(20*(q-2)) <= (n+2)^29 *)
+Definition avl_cost_ok (n q : Z) : bool :=
+  (0 <=? n) && ((q <? 2) || pow2_le (20 * (q - 2)) ((n + 2) ^ 29)).
+
+(* the least L >= 0 with x < c^(L+1), i.e. floor(log_c x), for c >= 2 and x >= 1 *)
+Fixpoint ilog_aux (fuel : nat) (c p x : Z) : Z :=
+  match fuel with
+  | O => 0
+  | S f => if x <? p then 0 else 1 + ilog_aux f c (p * c) x
+  end.
+Definition ilog (c x : Z) : Z := ilog_aux (S (Z.to_nat (Z.log2 x))) c c x.
+
+(* B-tree of order m: q <= 4*(floor(log2 m)+1)*(L+1) where L is the least L with
+   n+1 < ceil(m/2)^(L+1), i.e. L = floor(log_ceil(m/2)(n+1)).  This is the reading of the property's
+   real-valued "4*(log2(m)+1)*(log_ceil(m/2)(n+1)+1)" with both logarithms rounded DOWN: it is the
+   bound proved for the model (Properties/C07_btcost.v, C07_bt_cost_n) and it implies the
+   real-valued one, so a count accepted here satisfies the property as written; a count rejected
+   here exceeds the proved bound.  Order < 3 is rejected by the constructor, never reaches here. *)
+Definition bt_bound (m n : Z) : Z := 4 * (Z.log2 m + 1) * (ilog ((m + 1) / 2) (n + 1) + 1).
+Definition bt_cost_ok (m n q : Z) : bool := (0 <=? n) && (3 <=? m) && (q <=? bt_bound m n).
+
+Lemma rb_cost_ok_spec : forall n q,
+  rb_cost_ok n q = true <-> (0 <= n /\ (q < 2 \/ 2 ^ (q - 2) <= (n + 1) ^ 2)).
+Proof.
+  intros n q. unfold rb_cost_ok. rewrite andb_true_iff, orb_true_iff, Z.leb_le, Z.ltb_lt.
+  split; intros [Hn H]; (split; [exact Hn|]).
+  - destruct H as [H|H]; [left; exact H|right]. apply pow2_le_spec; [apply Z.pow_pos_nonneg; lia|exact H].
+  - destruct H as [H|H]; [left; exact H|right]. apply pow2_le_spec; [apply Z.pow_pos_nonneg; lia|exact H].
+Qed.
+
+Lemma avl_cost_ok_spec : forall n q,
+  avl_cost_ok n q = true <-> (0 <= n /\ (q < 2 \/ 2 ^ (20 * (q - 2)) <= (n + 2) ^ 29)).
+Proof.
+  intros n q. unfold avl_cost_ok. rewrite andb_true_iff, orb_true_iff, Z.leb_le, Z.ltb_lt.
+  split; intros [Hn H]; (split; [exact Hn|]).
+  - destruct H as [H|H]; [left; exact H|right]. apply pow2_le_spec; [apply Z.pow_pos_nonneg; lia|exact H].
+  - destruct H as [H|H]; [left; exact H|right]. apply pow2_le_spec; [apply Z.pow_pos_nonneg; lia|exact H].
+Qed.
+
+(* the floor form of the red-black bound (the one proved for the model, RBBounds.C07_rb_cost, is
+   q <= 2*floor(log2(n+1)) + 1) implies the real-valued one *)
+Lemma rb_cost_ok_floor : forall n q, 0 <= n -> q <= 2 * Z.log2 (n + 1) + 2 -> rb_cost_ok n q = true.
+Proof.
+  intros n q Hn Hq. apply rb_cost_ok_spec. split; [exact Hn|].
+  destruct (Z_lt_ge_dec q 2) as [Hlt|Hge]; [left; exact Hlt|right].
+  pose proof (Z.log2_nonneg (n + 1)) as Hl.
+  apply Z.le_trans with (2 ^ (2 * Z.log2 (n + 1))).
+  - apply Z.pow_le_mono_r; lia.
+  - rewrite Z.mul_comm, Z.pow_mul_r by lia.
+    apply Z.pow_le_mono_l. split; [apply Z.pow_nonneg; lia|].
+    apply Z.log2_spec. lia.
+Qed.
+
+Lemma ilog_aux_spec : forall c x, 2 <= c -> forall fuel k p,
+  0 <= k -> p = c ^ (k + 1) -> c ^ k <= x -> x < c ^ (k + 1 + Z.of_nat fuel) ->
+  let L := k + ilog_aux fuel c p x in k <= L /\ c ^ L <= x < c ^ (L + 1).
+Proof.
+  intros c x Hc. induction fuel as [|f IH]; intros k p Hk Hp Hlo Hhi; cbn [ilog_aux].
+  - cbn zeta. cbn [Z.of_nat] in Hhi. rewrite !Z.add_0_r in *. lia.
+  - destruct (x <? p) eqn:Hxp.
+    + apply Z.ltb_lt in Hxp. cbn zeta. rewrite Z.add_0_r. subst p. lia.
+    + apply Z.ltb_ge in Hxp. cbn zeta.
+      assert (Hp' : p * c = c ^ (k + 1 + 1)).
+      { subst p. rewrite (Z.pow_add_r c (k + 1) 1) by lia. rewrite Z.pow_1_r. reflexivity. }
+      assert (Hhi' : x < c ^ (k + 1 + 1 + Z.of_nat f)).
+      { replace (k + 1 + 1 + Z.of_nat f) with (k + 1 + Z.of_nat (S f)) by lia. exact Hhi. }
+      assert (Hlo' : c ^ (k + 1) <= x) by (subst p; exact Hxp).
+      specialize (IH (k + 1) (p * c) ltac:(lia) Hp' Hlo' Hhi'). cbn zeta in IH.
+      replace (k + (1 + ilog_aux f c (p * c) x)) with (k + 1 + ilog_aux f c (p * c) x) by lia.
+      lia.
+Qed.
+
+Lemma ilog_spec : forall c x, 2 <= c -> 1 <= x ->
+  0 <= ilog c x /\ c ^ (ilog c x) <= x < c ^ (ilog c x + 1).
+Proof.
+  intros c x Hc Hx. unfold ilog.
+  pose proof (Z.log2_nonneg x) as Hl.
+  pose proof (ilog_aux_spec c x Hc (S (Z.to_nat (Z.log2 x))) 0 c) as H. cbn zeta in H.
+  rewrite !Z.add_0_l in H. apply H.
+  - lia.
+  - rewrite Z.pow_1_r. reflexivity.
+  - rewrite Z.pow_0_r. exact Hx.
+  - rewrite Nat2Z.inj_succ, Z2Nat.id by exact Hl.
+    apply Z.lt_le_trans with (2 ^ Z.succ (Z.log2 x)).
+    + apply Z.log2_spec. lia.
+    + apply Z.le_trans with (c ^ Z.succ (Z.log2 x)).
+      * apply Z.pow_le_mono_l. lia.
+      * apply Z.pow_le_mono_r; lia.
+Qed.
+
+(* L = ilog c x is THE least exponent with x < c^(L+1) *)
+Lemma ilog_least : forall c x L, 2 <= c -> 1 <= x -> 0 <= L -> x < c ^ (L + 1) -> ilog c x <= L.
+Proof.
+  intros c x L Hc Hx HL Hlt. destruct (ilog_spec c x Hc Hx) as (H0 & Hlo & _).
+  destruct (Z_le_gt_dec (ilog c x) L) as [Hle|Hgt]; [exact Hle|exfalso].
+  assert (c ^ (L + 1) <= c ^ ilog c x) by (apply Z.pow_le_mono_r; lia). lia.
+Qed.
+
+Lemma bt_cost_ok_spec : forall m n q,
+  bt_cost_ok m n q = true <->
+  (0 <= n /\ 3 <= m /\ q <= 4 * (Z.log2 m + 1) * (ilog ((m + 1) / 2) (n + 1) + 1)).
+Proof.
+  intros m n q. unfold bt_cost_ok, bt_bound. rewrite !andb_true_iff, !Z.leb_le. tauto.
+Qed.
+
+(* the same with the meaning of ilog spelled out *)
+Lemma bt_cost_ok_meaning : forall m n q, 0 <= n -> 3 <= m ->
+  (bt_cost_ok m n q = true <->
+   exists L, 0 <= L /\ ((m + 1) / 2) ^ L <= n + 1 < ((m + 1) / 2) ^ (L + 1) /\
+             q <= 4 * (Z.log2 m + 1) * (L + 1)).
+Proof.
+  intros m n q Hn Hm.
+  assert (Hc : 2 <= (m + 1) / 2) by (apply Z.div_le_lower_bound; lia).
+  destruct (ilog_spec ((m + 1) / 2) (n + 1) Hc ltac:(lia)) as (H0 & Hlo & Hhi).
+  rewrite bt_cost_ok_spec. split.
+  - intros (_ & _ & Hq). exists (ilog ((m + 1) / 2) (n + 1)). repeat split; assumption.
+  - intros (L & HL & [HLlo HLhi] & Hq). split; [exact Hn|split; [exact Hm|]].
+    assert (HleL : ilog ((m + 1) / 2) (n + 1) <= L) by (apply ilog_least; lia).
+    assert (Hpos : 0 <= 4 * (Z.log2 m + 1)) by (pose proof (Z.log2_nonneg m); lia).
+    apply Z.le_trans with (4 * (Z.log2 m + 1) * (L + 1)); [exact Hq|].
+    assert (HgeL : L <= ilog ((m + 1) / 2) (n + 1)).
+    { destruct (Z_le_gt_dec L (ilog ((m + 1) / 2) (n + 1))) as [Hle|Hgt]; [exact Hle|exfalso].
+      assert (((m + 1) / 2) ^ (ilog ((m + 1) / 2) (n + 1) + 1) <= ((m + 1) / 2) ^ L)
+        by (apply Z.pow_le_mono_r; lia). lia. }
+    apply Z.mul_le_mono_nonneg_l; lia.
+Qed.
+
+(* ------------------------------------------------------------------------------------------ *)
+(* Failure codes                                                                               *)
+(*   1 undecodable component   2 shape invariant violated   3 keys not strictly ascending       *)
+(*   4 node / entry count <> Size()   5 red-black path ratio   6 B-tree Height() mismatch       *)
+(*   7 Get cost above bound   8 Put/Remove cost above bound   9 heap order violated             *)
+(* ------------------------------------------------------------------------------------------ *)
+Definition flag (b : bool) (code : Z) : list Z := if b then [] else [code].
+
+Definition rb_codes (cmp : cmpf) (size : Z) (o : obs) : list Z :=
+  match rb_of o with
+  | None => [1]
+  | Some t =>
+    flag (rb_okb t) 2 ++ flag (ksortedb cmp (RBTree.inorder t)) 3 ++
+    flag (Z.of_nat (RBTree.count t) =? size) 4 ++
+    flag (RBTree.height t <=? 2 * RBTree.minheight t)%nat 5
+  end.
+
+Definition avl_codes (cmp : cmpf) (size : Z) (o : obs) : list Z :=
+  match avl_of o with
+  | None => [1]
+  | Some t =>
+    flag (avl_okb t) 2 ++ flag (ksortedb cmp (AVLTree.inorder t)) 3 ++
+    flag (Z.of_nat (AVLTree.count t) =? size) 4
+  end.
+
+Definition bt_codes (m : nat) (cmp : cmpf) (size height : Z) (o : obs) : list Z :=
+  match o with
+  | OL [] => flag (size =? 0) 4 ++ flag (height =? 0) 6
+  | _ =>
+    match bt_of o with
+    | None => [1]
+    | Some n =>
+      flag (btree_okb m (Some n)) 2 ++ flag (ksortedb cmp (BTree.inorder n)) 3 ++
+      flag (Z.of_nat (BTree.count n) =? size) 4 ++ flag (Z.of_nat (BTree.height n) =? height) 6
+    end
+  end.
+
+Definition heap_codes (cmp : cmpf) (size : Z) (o : obs) : list Z :=
+  match zs_of o with
+  | None => [1]
+  | Some l => flag (heap_okb cmp l) 9 ++ flag (Z.of_nat (length l) =? size) 4
+  end.
+
+Lemma flag_nil : forall b c, flag b c = [] <-> b = true.
+Proof. intros [|] c; cbn; split; intros H; try reflexivity; discriminate. Qed.
+Lemma app_nil_iff : forall (a b : list Z), a ++ b = [] <-> (a = [] /\ b = []).
+Proof.
+  intros a b. split.
+  - intros H. apply app_eq_nil in H. exact H.
+  - intros [Ha Hb]. subst. reflexivity.
+Qed.
+
+(* no code <-> the boolean shape checkers above *)
+Lemma rb_codes_nil : forall cmp size o, rb_codes cmp size o = [] <-> rb_shape_ok cmp size o = true.
+Proof.
+  intros cmp size o. unfold rb_codes, rb_shape_ok. destruct (rb_of o) as [t|].
+  - rewrite !app_nil_iff, !flag_nil, !andb_true_iff. tauto.
+  - split; discriminate.
+Qed.
+Lemma avl_codes_nil : forall cmp size o, avl_codes cmp size o = [] <-> avl_shape_ok cmp size o = true.
+Proof.
+  intros cmp size o. unfold avl_codes, avl_shape_ok. destruct (avl_of o) as [t|].
+  - rewrite !app_nil_iff, !flag_nil, !andb_true_iff. tauto.
+  - split; discriminate.
+Qed.
+Lemma bt_codes_nil : forall m cmp size height o,
+  bt_codes m cmp size height o = [] <-> bt_shape_ok m cmp size height o = true.
+Proof.
+  intros m cmp size height o. unfold bt_codes, bt_shape_ok.
+  assert (Hgen : match bt_of o with
+                 | None => [1]
+                 | Some n => flag (btree_okb m (Some n)) 2 ++ flag (ksortedb cmp (BTree.inorder n)) 3 ++
+                             flag (Z.of_nat (BTree.count n) =? size) 4 ++ flag (Z.of_nat (BTree.height n) =? height) 6
+                 end = [] <->
+                 match bt_of o with
+                 | None => false
+                 | Some n => btree_okb m (Some n) && ksortedb cmp (BTree.inorder n) && (Z.of_nat (BTree.count n) =? size)
+                             && (Z.of_nat (BTree.height n) =? height)
+                 end = true).
+  { destruct (bt_of o) as [n|].
+    - rewrite !app_nil_iff, !flag_nil, !andb_true_iff. tauto.
+    - split; discriminate. }
+  destruct o as [z|[|x l]]; [exact Hgen| |exact Hgen].
+  rewrite app_nil_iff, !flag_nil, andb_true_iff. tauto.
+Qed.
+Lemma heap_codes_nil : forall cmp size o,
+  heap_codes cmp size o = [] <-> (heap_raw_ok cmp o = true /\ exists l, zs_of o = Some l /\ Z.of_nat (length l) = size).
+Proof.
+  intros cmp size o. unfold heap_codes, heap_raw_ok. destruct (zs_of o) as [l|].
+  - rewrite app_nil_iff, !flag_nil, Z.eqb_eq. split.
+    + intros [H1 H2]. split; [exact H1|]. exists l. split; [reflexivity|exact H2].
+    + intros [H1 (l' & Hl' & H2)]. inversion Hl'; subst l'. split; assumption.
+  - split; [discriminate|]. intros [H _]. discriminate.
+Qed.
+
+(* the meaning of a clean B-tree verdict, through btree_okb_spec *)
+Lemma bt_shape_ok_inv : forall m cmp size height o n, bt_of o = Some n ->
+  bt_shape_ok m cmp size height o = true ->
+  btree_inv m (Some n) /\ Z.of_nat (BTree.count n) = size /\ Z.of_nat (BTree.height n) = height.
+Proof.
+  intros m cmp size height o n Hn H. unfold bt_shape_ok in H.
+  destruct o as [z|[|x l]]; [cbn in Hn; discriminate|cbn in Hn; discriminate|].
+  rewrite Hn in H. rewrite !andb_true_iff, !Z.eqb_eq in H. destruct H as [[[H1 _] H3] H4].
+  split; [apply btree_okb_spec; exact H1|split; assumption].
+Qed.
+
+(* ------------------------------------------------------------------------------------------ *)
+(* Entry points over what the harness recorded                                                 *)
+(* ------------------------------------------------------------------------------------------ *)
+Definition tag_num (t : tag) : Z :=
+  match t with
+  | TSize => 0 | TEmpty => 1 | TValues => 2 | TKeys => 3 | TGet => 4 | TGetKey => 5 | TContains => 6
+  | TIndexOf => 7 | TGetIdx => 8 | TPeek => 9 | TFull => 10 | TLeft => 11 | TRight => 12 | TFloor => 13
+  | TCeiling => 14 | THeight => 15 | TShape => 16 | TRaw => 17 | TJson => 18 | TIterF => 19
+  | TIterB => 20 | TCost => 21 | TSane => 22
+  end.
+Definition vfind (t : tag) (v : list (tag * obs)) : option obs :=
+  match find (fun e => tag_num (fst e) =? tag_num t) v with Some e => Some (snd e) | None => None end.
+
+(* every entry of a cost vector within the bound, else [code]; [1] when it is not a list of integers *)
+Definition cost_codes (ok : Z -> bool) (code : Z) (o : obs) : list Z :=
+  match zs_of o with
+  | None => [1]
+  | Some qs => flag (forallb ok qs) code
+  end.
+
+Definition on_tag (t : tag) (v : list (tag * obs)) (f : obs -> list Z) : list Z :=
+  match vfind t v with Some o => f o | None => [] end.
+
+(* One observation vector of the implementation.  Components that are absent are not judged (after a
+   panic the vector is the single line "sane ((()))"); a vector that has structure but no integer
+   size is undecodable. *)
+Definition oracle_vector (c : config) (v : list (tag * obs)) : list Z :=
+  match vfind TSize v with
+  | Some (OZ n) =>
+    match ckind c with
+    | RedBlackTree =>
+      on_tag TShape v (rb_codes (kc c) n) ++ on_tag TCost v (cost_codes (rb_cost_ok n) 7)
+    | TreeMap | TreeSet => on_tag TShape v (rb_codes (kc c) n)
+    | TreeBidiMap =>
+      on_tag TShape v (fun o => match o with
+                                | OL [f; i] => rb_codes (kc c) n f ++ rb_codes (vc c) n i
+                                | _ => [1]
+                                end)
+    | AVLTree =>
+      on_tag TShape v (avl_codes (kc c) n) ++ on_tag TCost v (cost_codes (avl_cost_ok n) 7)
+    | BTree =>
+      on_tag TShape v (fun o => match vfind THeight v with
+                                | Some (OZ h) => bt_codes (bt_m c) (kc c) n h o
+                                | _ => [1]
+                                end)
+      ++ on_tag TCost v (cost_codes (bt_cost_ok (corder c) n) 7)
+    | BinaryHeap | PriorityQueue => on_tag TRaw v (heap_codes (kc c) n)
+    | _ => []
+    end
+  | Some (OL _) => [1]
+  | None =>
+    match vfind TShape v, vfind TRaw v, vfind TCost v with
+    | None, None, None => []
+    | _, _, _ => [1]
+    end
+  end.
+
+(* The X line of one operation: comparator calls made by a Put or Remove on a tree that had
+   [size_before] keys.  "A tree with n keys": for Put both readings of n (before / after the
+   insertion, n and n+1) are accepted; the bounds are monotone in n, so that is the bound at n+1. *)
+Definition cost_bound_ok (c : config) (n q : Z) : bool :=
+  match ckind c with
+  | RedBlackTree => rb_cost_ok n q
+  | AVLTree => avl_cost_ok n q
+  | BTree => bt_cost_ok (corder c) n q
+  | _ => true
+  end.
+Definition oracle_cost_op (c : config) (is_put : bool) (size_before : Z) (x : obs) : list Z :=
+  match x with
+  | OL [OZ q] =>
+    flag (cost_bound_ok c size_before q || (is_put && cost_bound_ok c (size_before + 1) q)) 8
+  | _ => []
+  end.
+(* without knowing the operation: the lenient reading *)
+Definition oracle_cost (c : config) (size_before : Z) (x : obs) : list Z :=
+  oracle_cost_op c true size_before x.
+
+Lemma oracle_cost_nil : forall c n q,
+  oracle_cost c n (OL [OZ q]) = [] <-> (cost_bound_ok c n q = true \/ cost_bound_ok c (n + 1) q = true).
+Proof.
+  intros c n q. unfold oracle_cost, oracle_cost_op. rewrite flag_nil, orb_true_iff. cbn [andb]. tauto.
+Qed.
+
+(* ---------- sanity runs ---------- *)
+Example rb_cost_ok_run :
+  (rb_cost_ok 0 2, rb_cost_ok 0 3, rb_cost_ok 7 8, rb_cost_ok 7 9, rb_cost_ok 10 8, rb_cost_ok 10 9,
+   rb_cost_ok 5 1000000000000) = (true, false, true, false, true, false, false).
+Proof. vm_compute. reflexivity. Qed.
+Example avl_cost_ok_run :
+  (* 1.45*log2(9)+2 = 6.596..   1.45*log2(1024)+2 = 16.5 *)
+  (avl_cost_ok 7 6, avl_cost_ok 7 7, avl_cost_ok 1022 16, avl_cost_ok 1022 17) = (true, false, true, false).
+Proof. vm_compute. reflexivity. Qed.
+Example bt_cost_ok_run :
+  (ilog 2 1, ilog 2 11, ilog 3 26, ilog 3 27, bt_bound 4 10, bt_cost_ok 4 10 48, bt_cost_ok 4 10 49)
+  = (0, 3, 2, 3, 48, true, false).
+Proof. vm_compute. reflexivity. Qed.
+
+Print Assumptions rb_cost_ok_spec.
+Print Assumptions avl_cost_ok_spec.
+Print Assumptions rb_cost_ok_floor.
+Print Assumptions ilog_spec.
+Print Assumptions bt_cost_ok_meaning.
+Print Assumptions rb_codes_nil.
+Print Assumptions avl_codes_nil.
+Print Assumptions bt_codes_nil.
+Print Assumptions heap_codes_nil.
+Print Assumptions bt_shape_ok_inv.
+Print Assumptions oracle_cost_nil.
